@@ -37,6 +37,7 @@ type LoopSpec struct {
 	Var        string
 	Invariants []*Clause
 	Decreases  *Clause
+	ExitLets   []*LetSpec // exit-let name = expr: evaluated in the state in which the loop is left
 }
 
 type EffectSpec struct {
@@ -553,6 +554,16 @@ func (db *ContractDB) loadContractFile(path, pkg string) error {
 			default:
 				return fmt.Errorf("%s: %q not allowed here", pos, kw)
 			}
+		case "exit-let":
+			i := strings.Index(rest, "=")
+			if i < 0 || curLoop == nil {
+				return fmt.Errorf("%s: exit-let needs 'name = expr' inside a loop block", pos)
+			}
+			e, err := parseSpecExpr(strings.TrimSpace(rest[i+1:]))
+			if err != nil {
+				return fmt.Errorf("%s: %v", pos, err)
+			}
+			curLoop.ExitLets = append(curLoop.ExitLets, &LetSpec{Name: strings.TrimSpace(rest[:i]), Expr: e, Text: rest})
 		case "let":
 			i := strings.Index(rest, "=")
 			if i < 0 {
